@@ -116,6 +116,10 @@ def execute(spec, keep_coords=False):
     if h.helper_failures:
         ex.stuck = ex.stuck or any(isinstance(e, Stuck) for e in h.helper_failures)
         ex.timeout = ex.timeout or any(isinstance(e, WallTimeout) for e in h.helper_failures)
+    try:
+        ex.rewindable_after = bool(RE.rewindable)
+    except Exception:  # noqa: BLE001
+        ex.rewindable_after = None
     ex.landed = [i["kind"] for i in h.injections if i["fired"] and not i.get("expired")]
     ex.coords = list(h.coords)
     h.close()
